@@ -366,7 +366,8 @@ func history(c *core.Ctx, r *core.Result, stream string, idx int, rng *rand.Rand
 				}
 			}
 		case "garbage":
-			s.l.In("garbage (not a frame)", []byte("8=FIX.4.2\x019=zz\x01"))
+			// framed correctly, but not a parseable message (first three fields out of order): it is dropped by the session
+			s.l.In("garbage (framed, unparseable)", []byte("8=FIX.4.2\x019=5\x0134=1\x0110=000\x01"))
 			s.absorb()
 		case "send":
 			before := len(l.Trace)
